@@ -353,12 +353,14 @@ def expectLog (pt : Point) (c n : Nat) (d : List Bool) : List Entry :=
   | some k => (List.range k).map (fun i => .decide pt i c false) ++ [.decide pt k c true]
   | none => (List.range n).map fun i => .decide pt i c false
 
-def firstReady {α : Type} (qs : List (List α)) : Option Nat := qs.findIdx? (· ≠ [])
-
-def popAt {α : Type} : List (List α) → Nat → List (List α)
-  | [], _ => []
-  | q :: qs, 0 => q.tail :: qs
-  | q :: qs, i + 1 => q :: popAt qs i
+/-- the first non-empty queue: its index, its head, and the queues with that head removed -/
+def firstPop {α : Type} : List (List α) → Option (Nat × α × List (List α))
+  | [] => none
+  | (v :: q) :: qs => some (0, v, q :: qs)
+  | [] :: qs =>
+    match firstPop qs with
+    | some (i, v, qs') => some (i + 1, v, [] :: qs')
+    | none => none
 
 def pushAt {α : Type} : List (List α) → Nat → α → List (List α)
   | [], _, _ => []
@@ -386,12 +388,9 @@ def expect (t : Flat) : Op → Flat × Option Out
     | some (i, v) => (t, some (.log [.fromHandler i c p (.leaf v)]))
     | none => (t, none)
   | .poll =>
-    match firstReady t.queues with
+    match firstPop t.queues with
     | none => (t, some (.cmd none))
-    | some i =>
-      match (t.queues.getD i []).head? with
-      | some cmd => ({ t with queues := popAt t.queues i }, some (.cmd (some (mapCmd t.user t.n i cmd))))
-      | none => (t, none)
+    | some (i, cmd, qs) => ({ t with queues := qs }, some (.cmd (some (mapCmd t.user t.n i cmd))))
   | .hrecv c e =>
     match lookup c t.conns, decode t.n e with
     | some qs, some (i, v) => ({ t with conns := setConn c (pushAt qs i v) t.conns }, some (.log [.hrecv i c v]))
@@ -400,12 +399,9 @@ def expect (t : Flat) : Op → Flat × Option Out
     match lookup c t.conns with
     | none => (t, none)
     | some qs =>
-      match firstReady qs with
+      match firstPop qs with
       | none => (t, some (.hev none))
-      | some i =>
-        match (qs.getD i []).head? with
-        | some v => ({ t with conns := setConn c (popAt qs i) t.conns }, some (.hev (some (wrap t.n i (.leaf v)))))
-        | none => (t, none)
+      | some (i, v, qs') => ({ t with conns := setConn c qs' t.conns }, some (.hev (some (wrap t.n i (.leaf v)))))
   | .bad => (t, none)
 
 /-- the Spec as a trace monitor over the IMPLEMENTATION's outputs -/
